@@ -952,6 +952,168 @@ def _plain_new_annassigns(fi, ref_fingerprints, stats):
     return done
 
 
+def _unfold_intersection_loops(fi, ref_fingerprints, stats):
+    """A new `for x in A.intersection(B): BODY` / `for x in A & B: BODY` is `for x in A: if x in B: BODY` (A a name)."""
+    from . import alpha
+
+    locs = alpha.local_names(fi.node)
+    done = 0
+    for n in list(walk_function(fi.node)):
+        if not (isinstance(n, ast.For) and not n.orelse and isinstance(n.target, ast.Name)):
+            continue
+        it = n.iter
+        A = B = None
+        if isinstance(it, ast.Call) and isinstance(it.func, ast.Attribute) and it.func.attr == "intersection" and len(it.args) == 1 and not it.keywords and isinstance(it.func.value, ast.Name):
+            A, B = it.func.value, it.args[0]
+        elif isinstance(it, ast.BinOp) and isinstance(it.op, ast.BitAnd) and isinstance(it.left, ast.Name):
+            A, B = it.left, it.right
+        if A is None or not _value_like(B):
+            continue
+        if _in_reference(fi, n, locs, ref_fingerprints):
+            continue
+        guard = ast.If(test=ast.Compare(left=ast.Name(id=n.target.id, ctx=ast.Load()), ops=[ast.In()], comparators=[B]), body=list(n.body), orelse=[])
+        ast.copy_location(guard, n)
+        n.iter = A
+        n.body = [guard]
+        ast.fix_missing_locations(n)
+        stats.setdefault("#intersection_loops", []).append(fi.qual)
+        done += 1
+    return done
+
+
+def _swap_membership_loops(fi, ref_fingerprints, stats):
+    """A new `for x in list(M): if x in S: BODY` with S a module-level constant collection (UPPER_CASE name) is
+    `for x in S: if x in M: BODY`: both run BODY once per element of the intersection (M's keys are unique); the reference
+    iterates the constant."""
+    from . import alpha
+
+    locs = alpha.local_names(fi.node)
+    done = 0
+    mod_consts = {t.id for st in fi.module.tree.body if isinstance(st, ast.Assign) for t in st.targets if isinstance(t, ast.Name) and t.id.isupper()}
+    for n in list(walk_function(fi.node)):
+        if not (isinstance(n, ast.For) and not n.orelse and isinstance(n.target, ast.Name) and len(n.body) == 1 and isinstance(n.body[0], ast.If) and not n.body[0].orelse):
+            continue
+        t = n.body[0].test
+        if not (isinstance(t, ast.Compare) and len(t.ops) == 1 and isinstance(t.ops[0], ast.In) and isinstance(t.left, ast.Name) and t.left.id == n.target.id and isinstance(t.comparators[0], ast.Name) and t.comparators[0].id in mod_consts):
+            continue
+        M = n.iter
+        if isinstance(M, ast.Call) and isinstance(M.func, ast.Name) and M.func.id in ("list", "tuple") and len(M.args) == 1 and not M.keywords:
+            M = M.args[0]
+        if isinstance(M, ast.Name) and M.id in mod_consts or not _value_like(M):
+            continue
+        if _in_reference(fi, n, locs, ref_fingerprints):
+            continue
+        S = t.comparators[0]
+        n.iter = S
+        n.body[0].test = ast.Compare(left=ast.Name(id=n.target.id, ctx=ast.Load()), ops=[ast.In()], comparators=[M])
+        ast.fix_missing_locations(n)
+        stats.setdefault("#membership_loops", []).append(fi.qual)
+        done += 1
+    return done
+
+
+def _count_loops_to_while(fi, ref_fingerprints, stats):
+    """A new `for V in itertools.count(a): if C: break; BODY` is `V = a; while not C: BODY; V += 1` (BODY without a
+    `continue` of its own); a new `S.difference_update(A, B, ..)` statement is `S -= A; S -= B; ..`."""
+    from . import alpha
+
+    locs = alpha.local_names(fi.node)
+    done = 0
+    for n in list(walk_function(fi.node)):
+        if isinstance(n, ast.For) and not n.orelse and isinstance(n.target, ast.Name) and isinstance(n.iter, ast.Call) and ((isinstance(n.iter.func, ast.Attribute) and n.iter.func.attr == "count") or (isinstance(n.iter.func, ast.Name) and n.iter.func.id == "count")) and len(n.iter.args) <= 1 and not n.iter.keywords:
+            if not (n.body and isinstance(n.body[0], ast.If) and not n.body[0].orelse and len(n.body[0].body) == 1 and isinstance(n.body[0].body[0], ast.Break)):
+                continue
+            rest = n.body[1:]
+            own_continue = False
+            for st in rest:
+                for x in ast.walk(st):
+                    if isinstance(x, (ast.Continue, ast.Break)):
+                        lp = getattr(x, "parent", None)
+                        while lp is not None and not isinstance(lp, (ast.For, ast.While)):
+                            lp = getattr(lp, "parent", None)
+                        if lp is n:
+                            own_continue = True
+            if own_continue or _in_reference(fi, n, locs, ref_fingerprints):
+                continue
+            blk, par = _block_of(n)
+            if blk is None:
+                continue
+            start = n.iter.args[0] if n.iter.args else ast.Constant(value=0)
+            init = ast.Assign(targets=[ast.Name(id=n.target.id, ctx=ast.Store())], value=start, type_comment=None)
+            inc = ast.AugAssign(target=ast.Name(id=n.target.id, ctx=ast.Store()), op=ast.Add(), value=ast.Constant(value=1))
+            wl = ast.While(test=_negated(n.body[0].test), body=list(rest) + [inc], orelse=[])
+            for x in (init, inc, wl):
+                ast.copy_location(x, n)
+                ast.fix_missing_locations(x)
+            i = [k for k, x in enumerate(blk) if x is n][0]
+            blk[i:i + 1] = [init, wl]
+            done += 1
+        elif isinstance(n, ast.Expr) and isinstance(n.value, ast.Call) and isinstance(n.value.func, ast.Attribute) and n.value.func.attr == "difference_update" and isinstance(n.value.func.value, ast.Name) and n.value.args and not n.value.keywords and all(_value_like(a) for a in n.value.args):
+            if alpha._fingerprint(n, locs)[0] in ref_fingerprints:
+                continue
+            blk, par = _block_of(n)
+            if blk is None:
+                continue
+            new = []
+            for a in n.value.args:
+                st = ast.AugAssign(target=ast.Name(id=n.value.func.value.id, ctx=ast.Store()), op=ast.Sub(), value=a)
+                ast.copy_location(st, n)
+                ast.fix_missing_locations(st)
+                new.append(st)
+            i = [k for k, x in enumerate(blk) if x is n][0]
+            blk[i:i + 1] = new
+            done += 1
+    if done:
+        set_parents(fi.node)
+        stats.setdefault("#count_loops", []).append("%s:%d" % (fi.qual, done))
+    return done
+
+
+def _splice_starred_tuples(fi, ref_locals, stats):
+    """A new local `T = (a, b, ...)` of value-like elements that is only ever unpacked into calls (`f(x, *T)`) is spliced in."""
+    done = 0
+    # f(x, *(a, b)) written out (the form left after such a temporary was propagated)
+    for c in [x for x in ast.walk(fi.node) if isinstance(x, ast.Call) and any(isinstance(a, ast.Starred) and isinstance(a.value, (ast.Tuple, ast.List)) for a in x.args)]:
+        new_args = []
+        for a in c.args:
+            if isinstance(a, ast.Starred) and isinstance(a.value, (ast.Tuple, ast.List)):
+                new_args.extend(a.value.elts)
+            else:
+                new_args.append(a)
+        c.args = new_args
+        done += 1
+    if done:
+        set_parents(fi.node)
+        stats.setdefault("#spliced", []).append(fi.qual)
+    for n in list(walk_function(fi.node)):
+        if not (isinstance(n, ast.Assign) and len(n.targets) == 1 and isinstance(n.targets[0], ast.Name) and n.targets[0].id not in ref_locals and isinstance(n.value, (ast.Tuple, ast.List)) and n.value.elts and all(_value_like(e) for e in n.value.elts)):
+            continue
+        name = n.targets[0].id
+        occ = [x for x in ast.walk(fi.node) if isinstance(x, ast.Name) and x.id == name]
+        if sum(1 for x in occ if isinstance(x.ctx, (ast.Store, ast.Del))) != 1:
+            continue
+        loads = [x for x in occ if isinstance(x.ctx, ast.Load)]
+        if not loads or any(not (isinstance(getattr(x, "parent", None), ast.Starred) and isinstance(getattr(x.parent, "parent", None), ast.Call) and x.parent in x.parent.parent.args) for x in loads):
+            continue
+        # the elements are plain names / attribute reads of things bound before: none may be rebound between the tuple and its uses
+        elt_names = {y.id for e in n.value.elts for y in ast.walk(e) if isinstance(y, ast.Name)}
+        later_stores = [y for y in ast.walk(fi.node) if isinstance(y, ast.Name) and isinstance(y.ctx, (ast.Store, ast.Del)) and y.id in elt_names and getattr(y, "lineno", 0) > n.lineno]
+        if later_stores:
+            continue
+        for x in loads:
+            c = x.parent.parent
+            i = [k for k, a in enumerate(c.args) if a is x.parent][0]
+            c.args[i:i + 1] = [_clone(e) for e in n.value.elts]
+            ast.fix_missing_locations(c)
+        blk, _p = _block_of(n)
+        if blk is not None:
+            blk[:] = [y for y in blk if y is not n] or [ast.copy_location(ast.Pass(), n)]
+        set_parents(fi.node)
+        stats.setdefault("#spliced", []).append("%s:%s" % (fi.qual, name))
+        done += 1
+    return done
+
+
 def _apply_new_partials(fi, ref_locals, stats):
     """A new local `T = functools.partial(F, a.., k=v..)` that is only ever called: T(x..) -> F(a.., x.., k=v..)."""
     done = 0
@@ -1014,6 +1176,40 @@ class _NewIdioms(ast.NodeTransformer):
         if nm == "attrgetter" and len(node.args) == 1 and not node.keywords and isinstance(node.args[0], ast.Constant) and isinstance(node.args[0].value, str) and node.args[0].value.isidentifier():
             self.n += 1
             new = ast.Lambda(args=ast.arguments(posonlyargs=[], args=[ast.arg(arg="record")], kwonlyargs=[], kw_defaults=[], defaults=[]), body=ast.Attribute(value=ast.Name(id="record", ctx=ast.Load()), attr=node.args[0].value, ctx=ast.Load()))
+            ast.copy_location(new, node)
+            ast.fix_missing_locations(new)
+            return new
+        if nm in ("all", "any") and isinstance(f, ast.Name) and len(node.args) == 1 and isinstance(node.args[0], ast.Call) and isinstance(node.args[0].func, ast.Name) and node.args[0].func.id == "map" and len(node.args[0].args) == 2 and not node.args[0].keywords:
+            # all(map(F, X)) -> all(F(item) for item in X)
+            F, X = node.args[0].args
+            self.n += 1
+            call = ast.Call(func=F, args=[ast.Name(id="item", ctx=ast.Load())], keywords=[])
+            gen = ast.GeneratorExp(elt=call, generators=[ast.comprehension(target=ast.Name(id="item", ctx=ast.Store()), iter=X, ifs=[], is_async=0)])
+            node.args = [gen]
+            ast.fix_missing_locations(node)
+            # the element call may itself be an idiom (partial(..)(item), operator function)
+            gen.elt = self.visit(call)
+            return node
+        if isinstance(f, ast.Call) and ((isinstance(f.func, ast.Name) and f.func.id == "partial") or (isinstance(f.func, ast.Attribute) and f.func.attr == "partial")) and f.args and not f.keywords and not node.keywords:
+            # partial(g, a..)(x..) -> g(a.., x..)
+            self.n += 1
+            new = ast.Call(func=f.args[0], args=list(f.args[1:]) + list(node.args), keywords=[])
+            ast.copy_location(new, node)
+            ast.fix_missing_locations(new)
+            return self.visit(new)
+        OPS = {"is_not": ast.IsNot, "is_": ast.Is, "eq": ast.Eq, "ne": ast.NotEq, "lt": ast.Lt, "le": ast.LtE, "gt": ast.Gt, "ge": ast.GtE, "contains": None}
+        if nm in OPS and len(node.args) == 2 and not node.keywords and (isinstance(f, ast.Name) or (isinstance(f, ast.Attribute) and isinstance(f.value, ast.Name) and f.value.id == "operator")):
+            self.n += 1
+            a_, b_ = node.args
+            if nm == "contains":
+                new = ast.Compare(left=b_, ops=[ast.In()], comparators=[a_])
+            elif nm in ("is_not", "is_", "eq", "ne"):
+                # symmetric: put the variable first (None is not x  ->  x is not None)
+                if isinstance(a_, ast.Constant) and not isinstance(b_, ast.Constant):
+                    a_, b_ = b_, a_
+                new = ast.Compare(left=a_, ops=[OPS[nm]()], comparators=[b_])
+            else:
+                new = ast.Compare(left=a_, ops=[OPS[nm]()], comparators=[b_])
             ast.copy_location(new, node)
             ast.fix_missing_locations(new)
             return new
@@ -1089,6 +1285,12 @@ def _unfold_yield_from_maps(fi, ref_fingerprints, stats):
                     if hasattr(x, "ctx"):
                         x.ctx = ast.Store()
                 new = ast.For(target=tgt, iter=g.iter, body=body, orelse=[], type_comment=None)
+        if new is None and _pure_iter(src) and not isinstance(src, ast.Name):
+            # `yield from <sequence expression>`: one element at a time
+            a_ = "item"
+            while a_ in taken:
+                a_ += "_"
+            new = ast.For(target=ast.Name(id=a_, ctx=ast.Store()), iter=src, body=[ast.Expr(value=ast.Yield(value=ast.Name(id=a_, ctx=ast.Load())))], orelse=[], type_comment=None)
         if new is None:
             continue
         ast.copy_location(new, n)
@@ -1709,6 +1911,11 @@ def _propagate_temps(fi, ref_locals, stats):
                         pth, _r = apath(x)
                         if pth and isinstance(getattr(x, "parent", None), ast.Call):
                             load_paths.add(pth)
+                # a plain name that is read is the object itself: a store *into* it (x[i] = .., x.append(..)) interferes as well
+                comp_vars = {y.id for x in ast.walk(e) if isinstance(x, ast.comprehension) for y in ast.walk(x.target) if isinstance(y, ast.Name)}
+                for x in ast.walk(e):
+                    if isinstance(x, ast.Name) and isinstance(x.ctx, ast.Load) and x.id not in comp_vars and not isinstance(getattr(x, "parent", None), (ast.Attribute, ast.Subscript)):
+                        load_paths.add((x.id,))
                 if load_paths:
                     use_ids = {id(un) for un in my_uses}
                     for x in ast.walk(fnode):
@@ -1725,7 +1932,10 @@ def _propagate_temps(fi, ref_locals, stats):
                             # the target of an assignment is stored after its right-hand side was evaluated: a use inside
                             # the value of the same statement still sees the old object
                             st_x = _stmt_of(x)
-                            if isinstance(st_x, (ast.Assign, ast.AugAssign, ast.AnnAssign)) and st_x.value is not None and not any(order[id(un)] > order[id(x)] and not any(z is un for z in ast.walk(st_x.value)) for un in my_uses):
+                            # (not when a loop that does not contain the definition repeats the statement: the store of
+                            # one iteration precedes the read of the next)
+                            repeated = any(id(l_) not in d_loops for l_ in loops_around(st_x))
+                            if not repeated and isinstance(st_x, (ast.Assign, ast.AugAssign, ast.AnnAssign)) and st_x.value is not None and not any(order[id(un)] > order[id(x)] and not any(z is un for z in ast.walk(st_x.value)) for un in my_uses):
                                 continue
                         hp, r_ = apath(hit)
                         if hp is None:
@@ -2529,6 +2739,66 @@ def _thread_none_sentinels(fi, ref_locals, stats):
     return done
 
 
+def _thread_bool_flags(fi, ref_locals, stats):
+    """Jump threading over a new boolean temporary:
+        if C: [P1;] T = <True|False>          if C: P1; <B or B2>
+        else: [P2;] T = E               ->    else: P2; if E: B else: B2
+        if T: B else: B2
+    (either branch may hold the constant; T not used afterwards)."""
+    done = 0
+    for n in list(walk_function(fi.node)):
+        if not (isinstance(n, ast.If) and n.body and n.orelse):
+            continue
+        a, b = n.body[-1], n.orelse[-1]
+        if not all(isinstance(x, ast.Assign) and len(x.targets) == 1 and isinstance(x.targets[0], ast.Name) for x in (a, b)):
+            continue
+        if a.targets[0].id != b.targets[0].id or a.targets[0].id in ref_locals:
+            continue
+        t = a.targets[0].id
+        if any(isinstance(x, ast.Name) and x.id == t for st_ in n.body[:-1] + n.orelse[:-1] for x in ast.walk(st_)):
+            continue
+        a_c = isinstance(a.value, ast.Constant) and isinstance(a.value.value, bool)
+        b_c = isinstance(b.value, ast.Constant) and isinstance(b.value.value, bool)
+        if a_c == b_c:
+            continue
+        blk, par = _block_of(n)
+        if blk is None:
+            continue
+        i = [k for k, x in enumerate(blk) if x is n][0]
+        if i + 1 >= len(blk) or not isinstance(blk[i + 1], ast.If):
+            continue
+        nx = blk[i + 1]
+        tt = nx.test
+        neg = False
+        if isinstance(tt, ast.UnaryOp) and isinstance(tt.op, ast.Not):
+            tt, neg = tt.operand, True
+        if not (isinstance(tt, ast.Name) and tt.id == t):
+            continue
+        if any(isinstance(x, ast.Name) and x.id == t for later in blk[i + 2:] for x in ast.walk(later)):
+            continue
+        if any(isinstance(x, ast.Name) and x.id == t for st_ in nx.body + nx.orelse for x in ast.walk(st_)):
+            continue
+        true_body, false_body = (nx.orelse, nx.body) if neg else (nx.body, nx.orelse)
+        const_val = a.value.value if a_c else b.value.value
+        expr = b.value if a_c else a.value
+        const_stmts = [_clone(x) for x in (true_body if const_val else false_body)]
+        other = ast.If(test=expr, body=[_clone(x) for x in true_body] or [ast.Pass()], orelse=[_clone(x) for x in false_body])
+        ast.copy_location(other, nx)
+        if a_c:
+            n.body = list(n.body[:-1]) + const_stmts
+            n.orelse = list(n.orelse[:-1]) + [other]
+        else:
+            n.body = list(n.body[:-1]) + [other]
+            n.orelse = list(n.orelse[:-1]) + const_stmts
+        if not n.body:
+            n.body = [ast.copy_location(ast.Pass(), n)]
+        del blk[i + 1]
+        ast.fix_missing_locations(n)
+        stats.setdefault("#bool_flags", []).append("%s:%s" % (fi.qual, t))
+        done += 1
+    return done
+
+
 def _project_ctor_fields(prog, fi, ref_locals, stats):
     """A new local `T = Cls(a, b, ...)` of a record class of the package (dataclass / NamedTuple with annotated fields and no
     __init__): a read of `T.field` is the constructor argument given for that field (value-like arguments only)."""
@@ -2793,6 +3063,11 @@ def normalise(prog, ref):
                 nm = s_.targets[0].id
                 if nm not in known and stores.get(nm) == 1:
                     consts[nm] = s_.value
+            elif isinstance(s_, ast.Assign) and len(s_.targets) == 1 and isinstance(s_.targets[0], ast.Name) and isinstance(s_.value, ast.Call) and ((isinstance(s_.value.func, ast.Name) and s_.value.func.id == "partial") or (isinstance(s_.value.func, ast.Attribute) and s_.value.func.attr == "partial")) and all(isinstance(a_, (ast.Name, ast.Attribute, ast.Constant)) for a_ in s_.value.args) and not s_.value.keywords:
+                # a new module-level `name = partial(f, const..)`: a fixed callable, folded like a constant
+                nm = s_.targets[0].id
+                if nm not in known and stores.get(nm) == 1:
+                    consts[nm] = s_.value
         if not consts:
             continue
         for fi in prog.functions.values():
@@ -2937,7 +3212,22 @@ def normalise(prog, ref):
                     if _thread_none_sentinels(fi, ref_locals, stats):
                         set_parents(fi.node)
                         k += 1
+                    if _thread_bool_flags(fi, ref_locals, stats):
+                        set_parents(fi.node)
+                        k += 1
                     if _project_ctor_fields(prog, fi, ref_locals, stats):
+                        set_parents(fi.node)
+                        k += 1
+                    if _swap_membership_loops(fi, ref_fps, stats):
+                        set_parents(fi.node)
+                        k += 1
+                    if _unfold_intersection_loops(fi, ref_fps, stats):
+                        set_parents(fi.node)
+                        k += 1
+                    if _count_loops_to_while(fi, ref_fps, stats):
+                        set_parents(fi.node)
+                        k += 1
+                    if _splice_starred_tuples(fi, ref_locals, stats):
                         set_parents(fi.node)
                         k += 1
                     if _apply_new_partials(fi, ref_locals, stats):
